@@ -122,6 +122,22 @@ def check_run(res):
         want = api_render(conn, text, DEFAULTS)
         if exc is not None or out != want:
             res.violation('h19:run:' + name, '.run NAME behaves like typing the query text with CLOSE ON defaulting to the query directive date when its FROM clause names none', {'run': name}, (repr(exc) if exc else out[:300]), want[:300])
+    # a named query never influences the statements typed after it
+    typed = ['SELECT date, account FROM year = 2020', 'SELECT account, sum(position) FROM year = 2020 OPEN ON 2020-01-15 GROUP BY account ORDER BY account', 'BALANCES FROM year = 2020']
+    for name, _ in cases + [('nosuch', None)]:
+        for between in ([], ['.set boxed false', '.tables']):
+            sess = Session()
+            conn = sess.shell.context
+            sess.run(f'.run {name}')
+            for b in between:
+                sess.run(b)
+            for st in typed:
+                res.case(('after-run', name, len(between), st), {'run': name, 'then': st})
+                out, err, exc = sess.run(st)
+                want = api_render(conn, st, DEFAULTS)
+                if exc is not None or out != want:
+                    res.violation('h19:statement-after-run', 'a typed statement prints what the API returns whatever was run before', {'run': name, 'then': st}, (repr(exc) if exc else out[:300]), want[:300])
+    sess = Session()
     out, err, exc = sess.run('.run nosuch')
     res.case(('run', 'nosuch'))
     if exc is not None or out or 'not found' not in err:
